@@ -224,7 +224,12 @@ def replay(prop, path):
     print(json.dumps({'evaluations': sum(ctx.counters.values()),
                       'violations': [{k: e[k] for k in ('probe', 'mech', 'detail')}
                                      for e in viol]}, indent=1))
-    if viol:
+    findings = load_findings(prop)
+    unlisted = [e for e in viol if claim(e, findings) is None]
+    for key in sorted({claim(e, findings) for e in viol} - {None}):
+        entry = next(f for f in findings if f['key'] == key)
+        print('KNOWN-FINDING: property=%s %s [%s]' % (prop, entry['what'], key))
+    if unlisted:
         print('VIOLATION property=%s replay=%s' % (prop, path))
         return 1
     return 0
